@@ -37,20 +37,19 @@ theorem body_end_le (s : Bytes) (p : Nat) (out : Bytes) (p1 : Nat) (out1 : Bytes
       exact (decodeSym_bounds hl s qE minL 256 p1 (huffTok_eob _ _ _ _ _ _ _ _ heob)).2
 
 /-- **With the whole buffer as budget, `cut` walks every block**: the result is the whole output. -/
-theorem cutLoop_whole (s T : Bytes) (hT : (T.size : Int) < 2147483648) :
+theorem cutLoop_whole (s T : Bytes) (hT : (T.size : Int) < 2147483648) (k : Nat) :
     ∀ (fuel : Nat) (c : Cutter) (prev : Option (Nat × Nat)) (p : Nat) (out : Bytes) (fuelS pE : Nat)
       (enc : Bytes) (e d : Nat),
-    c.OK → c.bits.bytes = s → c.bits.pos = p → c.maxEncodedLen = s.size → c.decodedLen = (out.size : Int) →
+    c.OK → c.bits.bytes = s → c.bits.pos = p → c.maxEncodedLen = s.size →
+    c.decodedLen + (k : Int) = (out.size : Int) → 0 ≤ c.decodedLen →
     blocks s none 0 fuelS p out = ⟨.done, pE, T⟩ →
-    Cutter.cutLoop fuel c prev = .ok (enc, e, d) → d = T.size := by
+    Cutter.cutLoop fuel c prev = .ok (enc, e, d) → k + d = T.size := by
   intro fuel
   induction fuel with
-  | zero => intro c prev p out fuelS pE enc e d _ _ _ _ _ _ h; simp [Cutter.cutLoop] at h
+  | zero => intro c prev p out fuelS pE enc e d _ _ _ _ _ _ _ h; simp [Cutter.cutLoop] at h
   | succ fuel ih =>
-    intro c prev p out fuelS pE enc e d hc hb hp hcm hcd hspec h
+    intro c prev p out fuelS pE enc e d hc hb hp hcm hcd hc0 hspec h
     obtain ⟨fS, p1, out1, rfl, hav, hbody, hfin⟩ := blocks_step s _ p out pE T hspec
-    have hcd0 : c.decodedLen + ((0 : Nat) : Int) = (out.size : Int) := by rw [hcd]; simp
-    have hc0 : 0 ≤ c.decodedLen := by rw [hcd]; omega
     have hT1 : ∃ y, T = out1 ++ y := by
       rcases hfin with ⟨_, _, h3⟩ | ⟨_, h3⟩
       · exact ⟨#[], by rw [h3]; simp⟩
@@ -94,7 +93,7 @@ theorem cutLoop_whole (s T : Bytes) (hT : (T.size : Int) < 2147483648) :
     generalize hblk : (if bt = 0 then Cutter.doStored { c with bits := bits2 }
         else if bt = 1 then Cutter.doStaticHuffman { c with bits := bits2 } prev.isNone
         else Cutter.doDynamicHuffman { c with bits := bits2 } prev.isNone) = blk at h
-    have hboth : BlockSim s 0 { c with bits := bits2 } p out p1 out1 blk ∧ Walked blk := by
+    have hboth : BlockSim s k { c with bits := bits2 } p out p1 out1 blk ∧ Walked blk := by
       rw [← hblk]
       have : bitsLE s (p + 1) 2 = 0 ∨ bitsLE s (p + 1) 2 = 1 ∨ bitsLE s (p + 1) 2 = 2 := by
         have : (2 : Nat) ^ 2 = 4 := by decide
@@ -103,21 +102,21 @@ theorem cutLoop_whole (s T : Bytes) (hT : (T.size : Int) < 2147483648) :
       · have : bt = 0 := by rw [t2, hty]; rfl
         rw [this]
         simp only [if_true]
-        exact ⟨stored_blocksim s _ hc2 hy p q2 out p1 out1 hty hbody 0 hcd0 hc0 hT1sz,
-          stored_full s _ hc2 hy p q2 out p1 out1 hty hbody hcd hT1sz hfit⟩
+        exact ⟨stored_blocksim s _ hc2 hy p q2 out p1 out1 hty hbody k hcd hc0 hT1sz,
+          stored_full s _ hc2 hy p q2 out p1 out1 hty hbody k hcd hc0 hT1sz hfit⟩
       · have : bt = 1 := by rw [t2, hty]; rfl
         rw [this]
         have e10 : ¬ ((1 : Int) = 0) := by omega
         simp only [e10, if_false, if_true]
-        exact ⟨fixed_blocksim s _ hc2 hy p q2 out p1 out1 hty hbody 0 hcd0 hc0 hT1sz _,
-          fixed_full s _ hc2 hy p q2 out p1 out1 hty hbody hcd hT1sz hfit _⟩
+        exact ⟨fixed_blocksim s _ hc2 hy p q2 out p1 out1 hty hbody k hcd hc0 hT1sz _,
+          fixed_full s _ hc2 hy p q2 out p1 out1 hty hbody k hcd hc0 hT1sz hfit _⟩
       · have : bt = 2 := by rw [t2, hty]; rfl
         rw [this]
         have e20 : ¬ ((2 : Int) = 0) := by omega
         have e21 : ¬ ((2 : Int) = 1) := by omega
         simp only [e20, e21, if_false]
-        exact ⟨dynamic_blocksim s _ hc2 hy p q2 out p1 out1 hty hbody 0 hcd0 hc0 hT1sz _,
-          dynamic_full s _ hc2 hy p q2 out p1 out1 hty hbody hcd hT1sz hfit _⟩
+        exact ⟨dynamic_blocksim s _ hc2 hy p q2 out p1 out1 hty hbody k hcd hc0 hT1sz _,
+          dynamic_full s _ hc2 hy p q2 out p1 out1 hty hbody k hcd hc0 hT1sz hfit _⟩
     obtain ⟨hsim, hwalk⟩ := hboth
     obtain ⟨c3, err⟩ := blk
     obtain ⟨k1, k2, k3, k4, k5, k6⟩ := hsim
@@ -131,9 +130,11 @@ theorem cutLoop_whole (s T : Bytes) (hT : (T.size : Int) < 2147483648) :
       obtain ⟨a1, a2, a3, a4, a5⟩ := k3 rfl
       have a1 : c3.bits.bytes = s := a1
       have a2 : c3.bits.pos = p1 := a2
-      have a3 : c3.decodedLen = (out1.size : Int) := by
-        have h' : c3.decodedLen + ((0 : Nat) : Int) = (out1.size : Int) := a3
-        omega
+      have a3 : c3.decodedLen + (k : Int) = (out1.size : Int) := a3
+      have hosz : out.size ≤ out1.size := by
+        obtain ⟨x, hx⟩ := (blockBody_cap s 0 0 p out p1 out1 hbody).1
+        rw [hx]; simp [Array.size_append]
+      have hc30 : 0 ≤ c3.decodedLen := by omega
       have a5 : c3.OK := a5
       obtain ⟨iu3, pu3⟩ := Inv.unread a5.inv
       rcases hfin with ⟨hf1, hf2, hf3⟩ | ⟨hf0, hcont⟩
@@ -141,12 +142,12 @@ theorem cutLoop_whole (s T : Bytes) (hT : (T.size : Int) < 2147483648) :
         simp only [hfb1, if_false] at h
         obtain ⟨_, f2, _, _⟩ := finish_bits _ enc e d h (unread_nBits_lt _) iu3.nBits_le
         have f2 : d = c3.decodedLen.toNat := f2
-        rw [f2, a3, hf3]; simp
+        rw [f2, ← hf3]; omega
       · have hfb0' : fb = 0 := by rw [t1, hf0]; rfl
         simp only [hfb0', if_true] at h
         exact ih { c3 with bits := c3.bits.unread } _ p1 out1 fS pE enc e d ⟨iu3, a5.max, a5.l, a5.d⟩
           (by show c3.bits.unread.bytes = s; rw [unread_bytes, a1]) (by show c3.bits.unread.pos = p1; rw [pu3, a2])
-          hk2 a3 hcont h
+          hk2 a3 hc30 hcont h
     · rcases hwalk with hw | ⟨e', hw, h1, _, _⟩
       · simp at hw
       · simp only [Option.some.injEq] at hw; exact absurd hw.symm h1
@@ -174,10 +175,44 @@ theorem Cut_whole (w : Bool) (s T : Bytes) (n0 : Nat) (limit : Int) (r : CutResu
     · split at h
       · simp at h
       · rename_i enc eLen dLen hc
-        have hg := cutLoop_whole s T (by omega) (8 * s.size + 2)
-          ⟨⟨s, 0, 0, 0⟩, s.size, 0, 0, 0, Huffman.zero, Huffman.zero⟩ none 0 #[] (8 * s.size + 1) pE enc eLen dLen
-          ⟨inv_fresh s 0 (Nat.zero_le _), Nat.le_refl _, Huffman.zero_shape, Huffman.zero_shape⟩ rfl rfl rfl
-          (by simp) hblk hc
+        have hg : dLen = T.size := by
+          have := cutLoop_whole s T (by omega) 0 (8 * s.size + 2)
+            ⟨⟨s, 0, 0, 0⟩, s.size, 0, 0, 0, Huffman.zero, Huffman.zero⟩ none 0 #[] (8 * s.size + 1) pE enc eLen dLen
+            ⟨inv_fresh s 0 (Nat.zero_le _), Nat.le_refl _, Huffman.zero_shape, Huffman.zero_shape⟩ rfl rfl rfl
+            (by simp) (by simp) hblk hc
+          omega
+        split at h
+        · cases hst : (Spec.inflateRaw #[] (enc.extract 0 eLen) none).status <;> simp [hst] at h
+          all_goals
+            split at h <;> simp at h
+            subst h
+            exact hg
+        · simp at h; subst h; exact hg
+
+/-- … also for streams that need a preset dictionary. -/
+theorem Cut_whole_dict (w : Bool) (dict s T : Bytes) (n0 : Nat) (limit : Int) (r : CutResult)
+    (hs : Spec.inflateDict dict s = some (T, n0)) (hT : T.size + 32768 < 2147483648) (h : Cut w s limit = .ok r)
+    (hlim : (s.size : Int) ≤ limit) (h30 : s.size ≤ 2 ^ 30) : r.decodedLen = T.size := by
+  obtain ⟨pE, hblk, _⟩ := (inflateDict_blocks dict s T n0).mp hs
+  have hDsz := truncDict_size dict
+  generalize truncDict dict = D at hblk hDsz
+  rw [Cut_eq] at h
+  split at h
+  · simp at h
+  · have hfull := clampLimit_full limit s.size hlim h30
+    rw [hfull] at h
+    split at h
+    · simp at h
+    · split at h
+      · simp at h
+      · rename_i enc eLen dLen hc
+        have hg : dLen = T.size := by
+          have := cutLoop_whole s (D ++ T) (by simp only [Array.size_append]; omega) D.size (8 * s.size + 2)
+            ⟨⟨s, 0, 0, 0⟩, s.size, 0, 0, 0, Huffman.zero, Huffman.zero⟩ none 0 D (8 * s.size + 1) pE enc eLen dLen
+            ⟨inv_fresh s 0 (Nat.zero_le _), Nat.le_refl _, Huffman.zero_shape, Huffman.zero_shape⟩ rfl rfl rfl
+            (by simp) (by simp) hblk hc
+          simp only [Array.size_append] at this
+          omega
         split at h
         · cases hst : (Spec.inflateRaw #[] (enc.extract 0 eLen) none).status <;> simp [hst] at h
           all_goals
